@@ -2,8 +2,8 @@ SPECIFICATION Spec
 CONSTANTS
   MinBodies = 1
   MaxBodies = 3
-  JTypes <- AllJ
-  Axes <- Ax3
+  JTypes <- MovJ
+  Axes <- Ax2
   Offsets <- K_Off1
   Rots <- R0
   Anchors <- K_Anc1
@@ -28,6 +28,7 @@ CONSTANTS
   TenDamps <- One0
   TenArms <- One0
   Level = 2
+  Rand = FALSE
 INVARIANT TypeOK
 INVARIANT FramesProper
 INVARIANT JacIsDerivative
